@@ -332,3 +332,13 @@ Proof.
   destruct ((r <? 0) || (1114111 <? r) || ((55296 <=? r) && (r <=? 57343)));
     repeat match goal with |- context [if ?c then _ else _] => destruct c end; cbn; lia.
 Qed.
+
+(* ---- separator / comment validation --------------------------------------- *)
+
+Lemma validate_csv_input_iff sep com :
+  validate_csv_input sep com = true <-> valid_sep sep /\ (com = 0 \/ valid_sep com) /\ sep <> com.
+Proof.
+  unfold validate_csv_input, valid_sep.
+  destruct (valid_csv_separator sep), (valid_csv_separator com), (Z.eqb_spec sep com), (Z.eqb_spec com 0);
+    cbn; intuition (try lia; try congruence).
+Qed.
